@@ -184,12 +184,9 @@ Section Ini.
     {| st_section := st_section st; st_prev := st_prev st;
        st_error := if st_error st =? 0 then lineno else st_error st; st_lineno := lineno |}.
 
-  (** one iteration of the loop of ini_parse_stream on the buffer [chunk] *)
-  Definition ini_line (st : ini_state) (chunk : list byte) : ini_state * list event :=
-    let lineno := st_lineno st + 1 in
-    let line := cstr chunk in
-    let bom := (lineno =? 1) && prefixb BOM line in
-    let l1 := if bom then skipn 3 line else line in
+  (** one iteration of the loop of ini_parse_stream, after the BOM test: [l1] is the C string at
+      [start] (BOM skipped on line 1), [bom] tells whether [start] was advanced *)
+  Definition ini_body (st : ini_state) (lineno : N) (bom : bool) (l1 : list byte) : ini_state * list event :=
     let l2 := rstrip l1 in
     let start := lskip l2 in
     let moved := bom || negb (Nat.eqb (length start) (length l2)) in       (* start > line *)
@@ -221,6 +218,13 @@ Section Ini.
         | [] => (set_error st lineno, [])
         end
     end.
+
+  (** one iteration of the loop of ini_parse_stream on the buffer [chunk] *)
+  Definition ini_line (st : ini_state) (chunk : list byte) : ini_state * list event :=
+    let lineno := st_lineno st + 1 in
+    let line := cstr chunk in
+    let bom := (lineno =? 1) && prefixb BOM line in
+    ini_body st lineno bom (if bom then skipn 3 line else line).
 
   Fixpoint ini_lines (st : ini_state) (cs : list (list byte)) : ini_state * list event :=
     match cs with
